@@ -403,4 +403,10 @@ M('C17', 'rd-no-plus-one', RA, "    return int(x // 1) + 1", "    return int(x /
 M('C17', 'groups-by-rank', RA, "      key = carry['eigvecs'].shape[0]", "      key = carry['eigvals'].shape[0]")
 M('C17', 'budget-per-group-plus-one', RA, "    group_resource = group_size * sketchy_rank", "    group_resource = group_size * (sketchy_rank + 1)")
 M('C17', 'no-unit-reservation', RA, "    group_resource -= group_size\n    total_score", "    total_score")
+M('C17', 'rank-bound-assert-loop-removed', RA, "    for key in realloc:\n      assert realloc[key] <= dim, (key, realloc[key], dim)\n", "")
+M('C17', 'remaining-score-double-decrease', RA, "        group_resource -= (rd(pair[1] * unit_rsc) - 1)\n        total_score -= pair[1]", "        group_resource -= (rd(pair[1] * unit_rsc) - 1)\n        total_score -= 2 * pair[1]")
+M('C17', 'outlier-gets-dim-plus-one', RA, "        realloc.update({pair[0]: dim})", "        realloc.update({pair[0]: dim + 1})")
+M('C17', 'rank-stored-under-constant-key', RA, "        realloc.update({pair[0]: rd(pair[1] * unit_rsc)})", "        realloc.update({'layer': rd(pair[1] * unit_rsc)})")
+TW('C17', 'twin-proportional-common-tail', RA, "      if is_outlier(pair[1], total_score, group_resource, dim - 1):\n        realloc.update({pair[0]: dim})\n        group_resource -= (dim - 1)\n        total_score -= pair[1]\n      else:\n        unit_rsc = group_resource / total_score if total_score > 0 else 0.0\n        realloc.update({pair[0]: rd(pair[1] * unit_rsc)})\n        group_resource -= (rd(pair[1] * unit_rsc) - 1)\n        total_score -= pair[1]\n",
+   "      name, sc = pair\n      if is_outlier(sc, total_score, group_resource, dim - 1):\n        got = dim\n      else:\n        per_unit = group_resource / total_score if 0 < total_score else 0.0\n        got = rd(sc * per_unit)\n      realloc[name] = got\n      group_resource = group_resource - got + 1\n      total_score = total_score - sc\n")
 TW('C17', 'twin-topup-reordered-test', RA, _TOPUP, "        if dim > realloc[key]:\n          extra -= 1\n          realloc[key] += 1\n        if extra <= 0:\n          break")
